@@ -7,6 +7,7 @@ Only statements and their final proofs live here; lemmas are in Verif.Proofs.DS.
 -/
 import Verif.Proofs.DS.OrderedMap
 import Verif.Proofs.DS.BiMap
+import Verif.Proofs.DS.IntervalST
 namespace Verif.Properties.C51
 open Verif.DS Verif.Model.DS
 
@@ -77,5 +78,91 @@ theorem bimap_zero_value {K V : Type} [DecidableEq K] [DecidableEq V] (ops : Lis
     ∀ k v, BiMap.insert (BiMap.BM.zero : BiMap.BM K V) k v = none ∧ BiMap.get (.zero : BiMap.BM K V) k = none ∧
       BiMap.getInverse (.zero : BiMap.BM K V) v = none :=
   ⟨Verif.Proofs.DS.BM.after_zero ops, fun _ _ => ⟨rfl, rfl, rfl⟩⟩
+
+/-! ## interval tree -/
+section ist
+open Verif.Model.DS.IntervalST Verif.Proofs.DS.IST
+
+/-- the tree after a sequence of `Put`s, each with its own coin sequence (oracle) -/
+def istAfter {T : Type} : List (Interval × T × List Bool) → Tree T
+  | [] => .nil
+  | (i, v, o) :: rest => put (istAfter rest) i v o
+
+/-- the multiset spec: the entries that were put -/
+def istSpec {T : Type} (puts : List (Interval × T × List Bool)) : List (Interval × T) :=
+  puts.map (fun x => (x.1, x.2.1))
+
+/-- **Invariant under every oracle.**  After any sequence of `Put`s, whatever the outcomes of the
+    random choices in `randomizedInsert`: every node caches the size and the max right endpoint of
+    its subtree (`Fixed`: what `check()` tests, at every node), the in-order traversal is sorted by
+    `(min, max)` (BST order, duplicates allowed), and the tree holds exactly the entries that were
+    put, as a multiset. -/
+theorem ist_invariant {T : Type} (puts : List (Interval × T × List Bool)) :
+    Inv (istAfter puts) ∧ (entries (istAfter puts)).Perm (istSpec puts) := by
+  induction puts with
+  | nil => exact ⟨⟨trivial, List.Pairwise.nil⟩, List.Perm.refl _⟩
+  | cons x rest ih =>
+    obtain ⟨i, v, o⟩ := x
+    exact ⟨⟨fixed_randomizedInsert ih.1.1 i v o, sorted_randomizedInsert ih.1.2 i v o⟩,
+      (entries_randomizedInsert _ i v o).trans (ih.2.cons _)⟩
+
+/-- the cached fields mean what they say: `size` is the number of entries and `max` is the largest
+    right endpoint in the subtree -/
+theorem ist_cached_fields {T : Type} (puts : List (Interval × T × List Bool)) :
+    (istAfter puts).size = puts.length ∧
+    (∀ e ∈ istSpec puts, ple (some e.1.max) (istAfter puts).maxPos) ∧
+    (puts ≠ [] → ∃ e ∈ istSpec puts, (istAfter puts).maxPos = some e.1.max) := by
+  have h := ist_invariant puts
+  have hm := maxPos_spec h.1.1
+  refine ⟨by rw [size_eq_length h.1.1, h.2.length_eq]; simp [istSpec], ?_, ?_⟩
+  · intro e he; exact hm.1 e (h.2.mem_iff.2 he)
+  · intro hne
+    have : istAfter puts ≠ .nil := by
+      intro hnil
+      have := h.2.length_eq
+      rw [hnil] at this
+      cases puts with
+      | nil => exact hne rfl
+      | cons => simp [entries, istSpec] at this
+    obtain ⟨e, he, hmax⟩ := hm.2 this
+    exact ⟨e, h.2.mem_iff.1 he, hmax⟩
+
+/-- **`Search` is sound and complete**: it returns an entry that was put and contains the point, and
+    it returns one whenever some entry contains the point (which one depends on the random shape). -/
+theorem ist_search_sound_complete {T : Type} (puts : List (Interval × T × List Bool)) (p : Int) :
+    (∀ e, search (istAfter puts) p = some e → e ∈ istSpec puts ∧ e.1.contains p = true) ∧
+    ((∃ e ∈ istSpec puts, e.1.contains p = true) → (search (istAfter puts) p).isSome = true) := by
+  have h := ist_invariant puts
+  refine ⟨fun e he => ⟨h.2.mem_iff.1 (search_sound he).1, (search_sound he).2⟩, ?_⟩
+  rintro ⟨e, he, hc⟩
+  exact search_complete h.1 ⟨e, h.2.mem_iff.2 he, hc⟩
+
+/-- the same for `SearchInterval` (some entry intersecting the query interval) -/
+theorem ist_searchInterval_sound_complete {T : Type} (puts : List (Interval × T × List Bool)) (q : Interval) :
+    (∀ e, searchInterval (istAfter puts) q = some e → e ∈ istSpec puts ∧ e.1.intersects q = true) ∧
+    ((∃ e ∈ istSpec puts, e.1.intersects q = true) → (searchInterval (istAfter puts) q).isSome = true) := by
+  have h := ist_invariant puts
+  refine ⟨fun e he => ⟨h.2.mem_iff.1 (searchInterval_sound he).1, (searchInterval_sound he).2⟩, ?_⟩
+  rintro ⟨e, he, hc⟩
+  exact searchInterval_complete h.1 ⟨e, h.2.mem_iff.2 he, hc⟩
+
+/-- **`Get`/`Contains` are exact** on intervals: a value stored under exactly that interval, iff one exists. -/
+theorem ist_get_exact {T : Type} (puts : List (Interval × T × List Bool)) (q : Interval) :
+    (∀ v, IntervalST.get (istAfter puts) q = some v → (q, v) ∈ istSpec puts) ∧
+    ((∃ v, (q, v) ∈ istSpec puts) ↔ contains (istAfter puts) q = true) := by
+  have h := ist_invariant puts
+  refine ⟨fun v hv => h.2.mem_iff.1 (get_sound hv), ?_, ?_⟩
+  · rintro ⟨v, hv⟩
+    exact get_complete h.1 ⟨v, h.2.mem_iff.2 hv⟩
+  · intro hc
+    unfold contains at hc
+    cases hg : IntervalST.get (istAfter puts) q with
+    | none => rw [hg] at hc; simp at hc
+    | some v => exact ⟨v, h.2.mem_iff.1 (get_sound hg)⟩
+
+example : search (istAfter [(⟨1, 3⟩, 8, [false]), (⟨1, 3⟩, 7, []), (⟨5, 9⟩, 1, [])]) 2 = some (⟨1, 3⟩, 7) := by decide
+example : search (istAfter [(⟨1, 3⟩, 8, [false]), (⟨1, 3⟩, 7, []), (⟨5, 9⟩, 1, [])]) 4 = none := by decide
+
+end ist
 
 end Verif.Properties.C51
